@@ -80,7 +80,11 @@ class SpatialTransformer(Module):
     ) -> Union[TSpatialTransformer, Tuple[tuple, dict]]:
         r"""Get or set data tensors and parameters on which transformation is conditioned."""
         if args:
-            return shallow_copy(self).condition_(*args)
+            copy = shallow_copy(self)
+            # Do not modify the spatial transformation which is shared with this transformer
+            copy.__dict__["_modules"] = copy.__dict__["_modules"].copy()
+            copy._transform = self._transform.condition(*args)
+            return copy
         return self._transform.condition()
 
     def condition_(self: TSpatialTransformer, *args, **kwargs) -> TSpatialTransformer:
